@@ -244,7 +244,7 @@ def _e2e_grid(tier):
                 for cplx in (False, True):
                     for steps in (1, 2):
                         for normalize in (0, 2):
-                            if cplx and (d > 3 or steps == 2 or not hom):
+                            if cplx and (d > 3 or steps == 2 or not hom or (normalize and d > 2)):
                                 continue
                             if steps == 2 and (d > 3 or normalize):
                                 continue
@@ -252,7 +252,6 @@ def _e2e_grid(tier):
                                 continue
                             out.append({'scheme': scheme, 'd': d, 'hom': hom, 'cplx': cplx, 'steps': steps, 'normalize': normalize})
     out.append({'scheme': 'yoshida_splitting', 'd': 2, 'hom': True, 'cplx': False, 'steps': 1, 'normalize': 0})
-    out.append({'scheme': 'yoshida_splitting', 'd': 3, 'hom': False, 'cplx': False, 'steps': 1, 'normalize': 0})
     return out
 
 
